@@ -25,7 +25,7 @@ def main(prop, tier, only=None, caps=None):
             'argument value inside the bound; non-trivial = decided and its witness twin (assert(0) at the end of the harness) is reachable')
     assumptions = ['IR from clang++-14 -O1 -D_GLIBCXX_ASSERTIONS -DNDEBUG of the unmodified header', 'll2c IR->C translator (validated per run against g++ build on random vectors)',
                    'allocation never fails', 'capacities outside the listed ones are not claimed',
-                   'source strings <= L+3 bytes', 'sprintf(): not covered (vsnprintf is libc)']
+                   'source strings <= L+3 bytes', 'sprintf(): E2 unit, vsnprintf modelled by its contract (formats %s %d and the failing wide-character conversion)']
     rep = Report(prop, tier)
     if prop == 'C11':
         # the C reference model is itself checked against the real std::string (native, 1.6 million comparisons)
@@ -42,10 +42,13 @@ def main(prop, tier, only=None, caps=None):
     e2units = []
     for L in e2caps:
         shapes = [('hx_fs_str', [op, 0 if prop == 'C10' else 1], 'L%d/strop%d' % (L, op)) for op in range(26) if not (prop == 'C10' and op in (22, 25))]
+        for n in ([256, 259] if tier == 'quick' else [255, 256, 257, 259, 260, 512, 515, 65536, 65539]):
+            shapes += [('hx_fs_long', [op, n], 'L%d/longop%d/src%d' % (L, op, n)) for op in range(10)]
+        shapes += [('hx_fs_sprintf', [m], 'L%d/sprintf%d' % (L, m)) for m in range(5)]
         if only:
             shapes = [x for x in shapes if re.search(only, x[2])]
         e2units.append(E2Unit('fixed_string_e2_%s_L%d' % (prop, L), os.path.join(HERE, 'w_fs_e2.cpp'), defines=['CAP=%d' % L], shapes=shapes, timeout=600, conc_cap=300, validate_vectors=4,
-                              bounds=dict(capacity=L, std_string_argument='<= 3 symbolic bytes', positions='unconstrained 64-bit' if prop == 'C10' else 'documented domain')))
+                              bounds=dict(capacity=L, std_string_argument='<= 3 symbolic bytes; plus long sources of 256, 259 (thorough: 255..65539) characters with the first capacity+1 symbolic', positions='unconstrained 64-bit' if prop == 'C10' else 'documented domain')))
     run_e2(prop, tier, e2units, rule, ['std::string overloads: E2 (irsym) with the real std::string header code as oracle, capacities ' + str(e2caps)], rep=rep, finish=False,
            classify=lambda v: v['msg'] if v['kind'] == 'assert' else v['kind'] + ': ' + re.sub(r'0x[0-9a-f]+', 'ADDR', re.sub(r'\d+', 'N', v['msg']))[:100],
            keyfn=lambda u, r, v, cls: '%s:e2 strop%s|%s' % (prop, r['args'][0], cls))
